@@ -43,6 +43,7 @@ bool ops_bias(Ctx &c, Toks const &t)
     c.out("fa", ftok(cv->f.real_value));
     c.out("xnext", ftok(cv->x_ext.real_value));
     c.out("vnext", ftok(cv->v_ext.real_value));
+    { std::vector<std::string> o; for (double g : c.proxy->drawn) o.push_back(ftok(g)); c.out("rnd", o.empty() ? std::string("snone") : join(o)); }
     c.out("err", itok(c.proxy->all_errors.find("still outside boundaries") != std::string::npos ? 1 : 0));
     return true;
   }
